@@ -234,7 +234,8 @@ def object_case(c):
     pg = ParallelGradient(bs[1], eta, lay, const, c['order'])
     nz, nq = len(eta[2]), len(eta[1])
     out = {'shifts': [int(x) for x in pg._shifts], 'fwd': int(pg._fwdSteps), 'bkwd': int(pg._bkwdSteps), 'coeffs': [float(x) for x in pg._coeffs],
-           'dz': float(pg._dz), 'inv_dz': float(pg._inv_dz), 'R0': float(const.R0), 'q': [float(x) for x in eta[1]],
+           'dz': float(pg._dz), 'inv_dz': float(pg._inv_dz), 'dz_spec': float((bs[2].domain[1] - bs[2].domain[0]) / nz),
+           'z0': float(eta[2][0]), 'zdom': [float(bs[2].domain[0]), float(bs[2].domain[1])], 'R0': float(const.R0), 'q': [float(x) for x in eta[1]],
            'iota': [float(x) for x in const.iota(eta[0])], 'bz': [float(x) for x in pg._bz[:, 0]], 'r': [float(x) for x in eta[0]],
            'tv': pg._thetaVals.tolist(), 'knots': [float(x) for x in bs[1].knots], 'deg': int(bs[1].degree), 'cu': bool(bs[1].cubic_uniform),
            'nz': nz, 'nq': nq, 'runs': []}
@@ -284,7 +285,10 @@ def gen_object_cases(chk):
         uni = [True, not (k % 4 == 3), True, True]
         nq = rng.randint(max(7, degq + 2), 12 if big else 9)
         nz = rng.randint(max(7, order + 1), 14 if big else 10)
-        cases.append({'seed': chk.seed * 41 + k, 'npts': [rng.randint(4, 6), nq, nz, 6], 'degrees': [3, degq, 3, 3], 'uniform': uni,
+        # z spline degree as the constants file may set it (splineDegrees): the z grid is the Greville grid of that space
+        degz = 3 if k % 3 == 0 else [5, 1, 2, 4, 5][k % 5]
+        nz = max(nz, degz + 2)
+        cases.append({'seed': chk.seed * 41 + k, 'npts': [rng.randint(4, 6), nq, nz, 6], 'degrees': [3, degq, degz, 3], 'uniform': uni,
                       'order': order, 'iota': [0.8, 0.0, -1.3, 4.5, -3.7][k % 5] if k % 2 else [0.8, 0.0, -1.3][k % 3], 'slope': (0.05 if k % 4 == 2 else None), 'nruns': 3, 'k': k})
     return cases
 
@@ -318,6 +322,12 @@ def judge_object(chk, c, o, answers):
     desc = {'npts': c['npts'], 'degrees': c['degrees'], 'uniform': c['uniform'], 'order': c['order'], 'iota': c['iota'], 'slope': c['slope']}
     chk.count(('obj', c['k']), stratum='object/order-%d/%s' % (c['order'], 'cu' if o['cu'] else 'nu'), sample=desc)
     t = 0
+    # the spacing of the z grid is the period divided by the number of points (not taken from the object: every later
+    # reference uses the object's own 1/dz)
+    if abs(o['dz'] - o['dz_spec']) > 64 * U * abs(o['dz_spec']) or abs(o['inv_dz'] * o['dz_spec'] - 1.0) > 64 * U:
+        chk.violation('ParallelGradient.__init__:dz', 'dz = %r (1/dz = %r) but the z grid has %d points on a period of %r: spacing %r '
+                      '(first z point %r, domain %r)' % (o['dz'], o['inv_dz'], o['nz'], o['zdom'][1] - o['zdom'][0], o['dz_spec'], o['z0'], o['zdom']),
+                      {'case': desc, 'dz': o['dz'], 'dz_spec': o['dz_spec'], 'z_first': o['z0']})
     code_steps = 'ok %s | %d %d' % (' '.join(map(str, o['shifts'])), o['fwd'], o['bkwd'])
     if answers[t] != code_steps:
         chk.violation('getCoeffsFirstDeriv:shifts:order-%d' % c['order'], 'shifts / forward / backward steps %r, model %r' % (code_steps, answers[t]),
